@@ -47,8 +47,10 @@ def gen_client(rng: random.Random, mode: str, n_ops: int, defs=None):
             elif r < 0.30:
                 ops.append({"op": "parse", "t": t, "seed": rng.getrandbits(30), "n": rng.choice([32, 64, 128]), "bytes": rng.random() < 0.5})
                 n_parse += 1
-            elif r < 0.36 and n_parse:
+            elif r < 0.32 and n_parse:
                 ops.append({"op": "reparse", "k": rng.randrange(n_parse)})
+            elif r < 0.37:
+                ops.append(gen_construct(rng, defs, t))
             elif r < 0.41:
                 ops.append({"op": "parse", "t": t, "seed": rng.getrandbits(30), "n": rng.randrange(0, 4)})
                 n_parse += 1
@@ -167,13 +169,15 @@ def gen_construct(rng, defs, t):
             break
         info = next((p for p in gen.leaf_paths(defs, {"kind": sd["kind"], "fields": [f]})), None)
         val = gen.gen_value(rng, defs, info) if info else None
+        if rng.random() < 0.3:
+            val = {"k": "none"}  # an explicit None means "use the default", exactly like leaving the argument out
         if positional:
             if val is None or rng.random() < 0.3:
                 break
             args.append(val)
         elif val is not None and rng.random() < 0.5:
             kw[f["name"]] = val
-    if len(args) == 1 and not kw and args[0]["k"] in ("bytes", "str"):
+    if len(args) == 1 and not kw and args[0]["k"] in ("bytes", "str", "none"):
         # T(b"x") with a single bytes-like argument means "parse these bytes" (documented call form), not construction
         kw = {sd["fields"][0]["name"]: args[0]}
         args = []
@@ -597,9 +601,11 @@ def exec_op(cl: Client, op, stats, mode, peers=None):
             d = t()
             names = [f_._name for f_ in t.__fields__]
             for n, s in zip(names, op["args"]):
-                setattr(d, n, gen.make_value(cs, s))
+                if s["k"] != "none":
+                    setattr(d, n, gen.make_value(cs, s))
             for n, s in op["kw"].items():
-                setattr(d, n, gen.make_value(cs, s))
+                if s["k"] != "none":
+                    setattr(d, n, gen.make_value(cs, s))
             stats.count("probe.construct_compared")
             if observe(d, sizes=False) != out[1]:
                 raise Violation("c17_construct", "construct_differs_from_default_plus_assign",
